@@ -19,4 +19,4 @@ disagrees with the writer walks out of the state), sparse_iter covers every byte
 NOT_DECIDED = """Validity of every reachable transition target, per-state pattern-id validity, and the documented walking recipe's equality with the built-in search (behavioural)."""
 CLAIM = """Static decision of the classification contract of the low-level API (predicate equivalence under all orderings, special-id provenance, absorbing dead state by construction, non-empty match lists, start_state error table, sealed trait)."""
 NOTE = """Trusted: rustc MIR construction, the fact extractor."""
-TECHNIQUE = "static analysis: abstract evaluation of id predicates over all orderings, decision tables, value-provenance matching over rustc MIR and type facts"
+TECHNIQUE = "static analysis: abstract evaluation of id predicates over all orderings, symbolic evaluation of the id layout after shuffle and of the DFA id map on path summaries, value-provenance matching over rustc MIR and type facts"
